@@ -185,9 +185,15 @@ void h_oct_floatvec(void) {
 void h_oct_canon_intvec(void) {
   NONDET(int32_t, q); NONDET_ARR(int32_t, v, 3);
   ASSUME(q >= 2 && q <= 30);
+#ifdef OCT_Q
+  ASSUME(q == OCT_Q);
+#endif
+#ifndef INTVEC_BOUND
+#define INTVEC_BOUND (1 << 29)
+#endif
   struct OTB o; o.quantization_bits_ = -1; o.max_quantized_value_ = 0; o.max_value_ = 0; o.dequantization_scale_ = 1.f; o.center_value_ = -1;
   ASSUME(OTB_SetQuantizationBits(&o, q));
-  ASSUME(v[0] > -(1 << 29) && v[0] < (1 << 29) && v[1] > -(1 << 29) && v[1] < (1 << 29) && v[2] > -(1 << 29) && v[2] < (1 << 29));
+  ASSUME(v[0] > -INTVEC_BOUND && v[0] < INTVEC_BOUND && v[1] > -INTVEC_BOUND && v[1] < INTVEC_BOUND && v[2] > -INTVEC_BOUND && v[2] < INTVEC_BOUND);
   OTB_CanonicalizeIntegerVector_i32(&o, v);
   ASSERT((int64_t)draco_abs_i32(v[0]) + draco_abs_i32(v[1]) + draco_abs_i32(v[2]) == o.center_value_, "oct.canon_intvec.on_octahedron");
   HARNESS_END();
